@@ -21,6 +21,7 @@ import JanetModel.Gen.Depth
 import JanetModel.Depth.GuardCert
 import JanetModel.Depth.FiberStackLemmas
 import JanetModel.Gen.DepthGuard
+import JanetModel.Gen.DepthBalance
 import JanetModel.Gen.DepthStack
 namespace JanetModel.Props.C19
 open JanetModel.Depth
@@ -213,6 +214,57 @@ theorem cg_exemptions_certified :
      ["janet_asm1", "unmarshal_one_def", "janetc_value"].all (fun w => certifiedGuards.contains w)) = true := by
   decide +kernel
 
+
+
+/-! ### counter balance on the IR control-flow graph (session 4) -/
+
+/-- ★ every balance certificate, EVERY live path from the function's entry (loops included): the label at the end of
+    the path is at most the net number of charges taken on it and never negative - on no path, at no point, has the
+    counter been released more often than it was charged; a path that reaches a `ret` block (label 0, checked) without
+    a charge-keeping edge has released exactly what it charged -/
+theorem counter_balanced_on_every_path (c : BalCert) (hok : balOK c = true) (p : List Nat) (hn : 0 < c.n)
+    (hlive : LiveB c (0 :: p)) :
+    lvl c (lastOf 0 p) ≤ pathDelta c (0 :: p) ∧ 0 ≤ lvl c (lastOf 0 p) := by
+  have h0 : inMask c.live 0 = true ∧ lvl c 0 = 0 := by
+    simp only [balOK, Bool.and_eq_true, decide_eq_true_eq] at hok
+    exact ⟨hok.1.1.1.1, hok.1.1.1.2⟩
+  have h := bal_path_le c hok p 0 hn h0.1 hlive
+  rw [h0.2] at h
+  exact ⟨by have := h.1; omega, h.2.1⟩
+
+/-- charge-keeping exits that are accepted: janetc_value returns early on a recorded compile error / "recursed too
+    deeply" / macro-expansion failure with `recursion_guard` still decremented (janet_compile re-initialises it; a kept
+    charge can only make the guard fire earlier) -/
+def leaksAllowed : List (String × Nat) := [("janetc_value", 4)]
+
+/-- recursive calls made without a charge of the function's own counter that are accepted: peg_rule calls the function /
+    C function of `cmt`, `replace` with the depth it has used handed to janet_vm.stackn instead (obligation
+    `cg_reentry_shared`; janet_call tests stackn itself) -/
+def unchargedAllowed : List (String × Nat) := [("peg_rule", 2)]
+
+/-- ★ per-run obligation: for every guard of the current tree whose counter is a memory location changed by ±1 stores
+    (janet_call, janetc_value, destructure_nested, janet_mark, peg_rule, peg_compile1, janet_pretty_one) the block
+    labelling extracted from the IR is consistent on every edge, every recursive call is made with a charge taken except
+    the written `unchargedAllowed`, the number of charge-keeping exits is within `leaksAllowed`, and no such guard lacks
+    a certificate -/
+theorem cg_counters_balanced_ir :
+    JanetModel.Gen.DepthBalance.certs.all (fun c => balOK c &&
+      Nat.ble (leakCount c) ((leaksAllowed.find? (fun p => p.1 == c.fn)).map (·.2) |>.getD 0) &&
+      Nat.ble (unchargedCount c) ((unchargedAllowed.find? (fun p => p.1 == c.fn)).map (·.2) |>.getD 0)) = true ∧
+    (JanetModel.Gen.DepthGuard.certs.filter (fun c => c.kind == "counter" && c.charge.startsWith "store" &&
+        !c.counter.startsWith "param")).all
+      (fun c => JanetModel.Gen.DepthBalance.certs.any (fun b => b.fn == c.fn && b.counter == c.counter && !b.calls.isEmpty)) = true := by
+  decide +kernel
+
+/-- non-vacuity: `depth--; rec(); depth++` balances; `depth--; rec(); depth++; depth++` (C19-4's double release) has no
+    consistent labelling: the return block would be entered at level -1 -/
+def exBal (level delta : List Int) (calls : List (Nat × Int)) : BalCert :=
+  { fn := "f", counter := "d", n := 3, cfg := [(0, 1), (1, 2)], level := level, delta := delta,
+    live := 7, stops := 0, rets := [2], calls := calls }
+example : balOK (exBal [0, 1, 0] [1, -1, 0] [(1, 1)]) = true := by decide
+example : balOK (exBal [0, 1, -1] [1, -2, 0] [(1, 1)]) = false := by decide
+example : balOK (exBal [0, 1, 0] [1, -2, 0] [(1, 1)]) = false := by decide
+example : unchargedCount (exBal [0, 0, 0] [0, 0, 0] [(1, 0)]) = 1 := by decide
 
 /-! ### the fiber stack: `maxstack` bounds janet-level recursion with a catchable error (session 4) -/
 
